@@ -153,7 +153,12 @@ def run(ctx, spec):
     if res["stage"] != "translate":
         for name, term_fn, v_fn, shard, limit in spec["stages"]:
             sel = usable[:limit] if limit else usable
-            pairs = [(co, term_fn(co[0], co[1], rng)) for co in sel]
+            def term_of(co):
+                try:
+                    return term_fn(co[0], co[1], rng)
+                except (ValueError, OverflowError):
+                    return None     # non-finite numbers in the observables: nothing the exact model can be evaluated on (the oracle has judged them)
+            pairs = [(co, term_of(co)) for co in sel]
             sel = [co for co, t in pairs if t is not None]   # a term function returns None for cases its stage does not apply to
             terms = [t for co, t in pairs if t is not None]
             n, mism = S.run_stage(ctx, name, terms, v_fn, shard=shard)
